@@ -6,18 +6,18 @@ ROOT = os.path.dirname(os.path.dirname(os.path.abspath(__file__)))
 # id -> (category, technique, level text, level note, design ref, engine)
 CHECKS = {
  "C16": ("exploration", "reference-model monitor (sorted map / sorted multiset) shadowing the real skip list and merge heap; exhaustive permutations <=7 keys + seeded random",
-         "All 5 913 insertion orders of 1..7 keys are executed against the real skip list under two comparators and every probe / bound pair is compared with a sorted-slice model; beyond that seeded random orders up to 2 000 keys and seeded k-way merges are monitored; lookups are interleaved with the inserts (incl. a next-key lookup before every insert for all permutations), key sets that are prefixes of one shared buffer and queue inputs that end with a wrapped Done are included. Exhaustive for the small sub-space, sampled beyond; right level because the structures are pure in-memory code with no schedule or fault dimension.",
+         "All 5 913 insertion orders of 1..7 keys are executed against the real skip list under two comparators and every probe / bound pair is compared with a sorted-slice model; beyond that seeded random orders up to 2 000 keys and seeded k-way merges are monitored; lookups are interleaved with the inserts (incl. a next-key lookup before every insert for all permutations), key sets that are prefixes of one shared buffer, queue inputs that end with a wrapped Done, inputs that hold only the empty key, block-wise disjoint inputs and three-way ties are included. Exhaustive for the small sub-space, sampled beyond; right level because the structures are pure in-memory code with no schedule or fault dimension.",
          "trusts Go's sort package and the 30-line model; comparators assumed consistent", "§3 C16", "E1"),
 }
 CHECKS.update({
  "C04": ("exploration", "reference-model monitor: list-of-surviving-records model shadowing writer programs, then sequential/skip, random-access and seek-next-from-every-offset read-back",
-         "Seeded writer programs (incl. seek-back) x 4 compressions x buffer sizes x buffered/direct I/O are executed with the real writer and read back through every reader/access path (sequential ReadNext/SkipNext mixes through the buffered and the direct-I/O reader factory, ReadNextAt, SeekNext); SeekNext is compared with the model at every byte offset of small files. Exploration: bounded by the seeded case list, biased to marker bytes and buffer/page/4KiB-window boundaries.",
+         "Seeded writer programs (incl. seek-back) x 4 compressions x buffer sizes x buffered/direct I/O are executed with the real writer and read back through every reader/access path (sequential ReadNext/SkipNext mixes through the buffered and the direct-I/O reader factory, ReadNextAt, SeekNext); SeekNext is compared with the model at every byte offset of small files; payloads with long zero runs, direct-I/O files whose data end is swept across the last 32 bytes of a block and one written through an 8 MiB direct buffer are included. Exploration: bounded by the seeded case list, biased to marker bytes and buffer/page/4KiB-window boundaries.",
          "trusts the 90-line independent layout parser only as a cross-check; payloads embedding a complete valid record image are excluded (format-level ambiguity)", "§3 C04", "E1"),
  "C12": ("fault_enumeration", "fault enumeration on generated files: every truncation length, every record-header byte x 255 values, every unsupported file-header value; oracle = independent layout parser + written records",
-         "For each generated file every truncation length and every single-byte alteration of every record-header byte (all 255 values on small files) is materialised and read with both readers, cut files additionally by a sequential program with SkipNext mixed in (every 4th case through the direct-I/O reader factory); the oracle demands genuine records only. Exhaustive over single-byte header damage for the generated files, sampled over files.",
+         "For each generated file every truncation length and every single-byte alteration of every record-header byte (all 255 values on small files) is materialised and read with both readers, cut files additionally by a sequential program with SkipNext mixed in (every 4th case through the direct-I/O reader factory); every other sequential reader is closed twice before the random-access pass; the oracle demands genuine records only. Exhaustive over single-byte header damage for the generated files, sampled over files.",
          "header byte positions come from the harness's own parser (cross-checked against the writer's offsets on the undamaged file)", "§3 C12", "E1"),
  "C14": ("exploration", "reference-model monitor: map-with-tombstones model shadowing every memstore call; flush read back through the real table reader",
-         "Every result/error of seeded call sequences over all methods is compared with the model, then both flush variants are read back with the real SSTable reader (Scan and Get, nil vs empty). Exploration over seeded programs; right level for a single-threaded in-memory structure.",
+         "Every result/error of seeded call sequences over all methods is compared with the model, then both flush variants are read back with the real SSTable reader (Scan and Get, nil vs empty); lookup buffers are reused, iterator results are kept and re-inspected, and the spare capacity of returned keys is overwritten. Exploration over seeded programs; right level for a single-threaded in-memory structure.",
          "size estimate checked only for wrap-around (bounded by 4x bytes ever passed)", "§3 C14", "E1"),
 })
 CHECKS.update({
@@ -36,7 +36,7 @@ CHECKS.update({
          "Seeded WriteNext programs with unsorted/repeated/empty keys (one in three under a difference-valued comparator, half through one reused key buffer) and injected data- or index-append failures (incl. immediate retries) are run against the real writer; each call's result class, the table content after Close and every metadata field (vs real file sizes) are compared with the model.",
          "injected failures are clean failures (wrapped writer untouched), the shape of the repository's own failing-writer test double", "§3 C15", "E1+E6a"),
  "C20": ("exploration", "differential monitor: Kaitai-generated reader vs native reader vs independent layout parser on files written by the real writer; enum names read from the published .ksy",
-         "Files with nil/empty/large records under all four compression types (one in four written by a program that rolls records back, every 6th case three files written at the same time from three goroutines, with rollback targets from Write's result or from Size(), and refused seeks in between) are decoded by the repository's Kaitai-generated reader and compared record by record (count, nil flag, stored bytes) with the native reader and an independent parser; compression codes are checked against the enum in recordio_v4.ksy.",
+         "Files with nil/empty/large records (payload lengths exactly at the varint boundaries 127/128, 16383/16384, 2097151/2097152) under all four compression types (one in four written by a program that rolls records back, every 6th case three files written at the same time from three goroutines, with rollback targets from Write's result or from Size(), and refused seeks in between) are decoded by the repository's Kaitai-generated reader and compared record by record (count, nil flag, stored bytes) with the native reader and an independent parser; compression codes are checked against the enum in recordio_v4.ksy.",
          "the generated Go reader stands for the schema (no kaitai-struct-compiler offline)", "§3 C20", "E1"),
 })
 CHECKS.update({
@@ -46,7 +46,7 @@ CHECKS.update({
 })
 CHECKS.update({
  "C01": ("exploration", "reference-model monitor: Go map shadowing every SimpleDB call of seeded single-client programs with driven (helper-placed) and live (ticker) flush/compaction schedules and per-session option redraws",
-         "Seeded programs of Put/Delete/Get/rotation/compaction-cycle/Close+re-Open (new options each session) run against the real database; every read is compared with a map, every rotation, compaction and reopen is followed by a full read-back, and a child killed by log.Panicf in the flusher or compactor is a violation. Exploration: the schedules are those the program places (driven) or the scheduler/ticker produce (live).",
+         "Seeded programs of Put/Delete/Get/rotation/compaction-cycle/Close+re-Open (new options each session) run against the real database; every read is compared with a map, every rotation, compaction and reopen is followed by a full read-back, one case logs 150 MiB of incompressible values into ONE memstore generation with every option at its default and is then cleanly re-opened twice, and a child killed by log.Panicf in the flusher or compactor is a violation. Exploration: the schedules are those the program places (driven) or the scheduler/ticker produce (live).",
          "valid keys/values only; live schedules are not enumerated, only sampled", "§3 C01", "E1"),
 })
 CHECKS.update({
@@ -62,10 +62,10 @@ CHECKS.update({
          "Histories of 3..6 clients on 2..5 keys with unique written values are recorded with one monotonic clock while flushes and compactions overlap the calls (tiny memstore, 50us..1ms ticker or a chaos goroutine, delays between critical sections and one inside the reflection's critical section) and checked with porcupine; a checker timeout is inconclusive. Every 10th history has a rotation that fails (a directory planted where a coming WAL file would be created): mutations that returned an error stay in the history as open may-have-taken-effect calls (set-valued register state), Gets must keep succeeding and the history must stay linearizable. Exploration over observed interleavings.",
          "only interleavings that actually occurred are judged; the evidence counts flushes/compactions inside the client window and overlapping call pairs", "§3 C05", "E3"),
  "C18": ("exploration", "Go race detector (-race build of the child, halt_on_error=0, reports parsed and de-duplicated by innermost go-sstables frames) + sequential-answer oracle over three concurrent workloads",
-         "One SimpleDB handle (8 goroutines, own, shared and each other's keys with self-describing values, rotations and compactions running or everything in one memstore), one SSTableReader (8..16 goroutines of Get/Contains/range scans; one table in three without a bloom filter file) and one MMapReader (ReadNextAt/SeekNext) are exercised in the race-detector build across seeds and GOMAXPROCS {2,4,16}; any report touching go-sstables or the harness, any abnormal exit, any result differing from the sequential answer and any state-based deadlock (a client blocked inside the library while no library goroutine can run, read off the watchdog's goroutine dump) is a violation.",
+         "One SimpleDB handle (8 goroutines, own, shared and each other's keys with self-describing values, rotations and compactions running or everything in one memstore; in every other run callbacks at two named points make the flusher's table publication and the compactor's swap start within nanoseconds of each other, every other run calls Close while the calls are still in flight, two shared keys hold 40..70 KiB values), one SSTableReader (8..16 goroutines of Get/Contains/range scans; one table in three without a bloom filter file) and one MMapReader (ReadNextAt/SeekNext) are exercised in the race-detector build across seeds and GOMAXPROCS {2,4,16}; any report touching go-sstables or the harness, any abnormal exit, any result differing from the sequential answer and any state-based deadlock (a client blocked inside the library while no library goroutine can run, read off the watchdog's goroutine dump) is a violation.",
          "the race detector reports only races that happened in the observed executions; Scan() is outside the documented concurrent surface", "§3 C18", "E4"),
  "C19": ("exploration", "resource census monitor: /proc/self/fd + /proc/self/maps filtered by directory and goroutine dump filtered by go-sstables frames, at quiescent points and after Close",
-         "Driven SimpleDB sessions with >=40 cycles are censused at every quiescent point (descriptors <= 4, mappings <= live tables + 3) and after Close (nothing left, no library goroutine, re-Open and RemoveAll work); live sessions are closed while a compaction is held in flight at a hook point; table and RecordIO readers/writers (incl. failed Opens, abandoned scans, legacy-format tables, writers rewound before Close and stacked readers one member of which was closed before) must return to the baseline after Close.",
+         "Driven SimpleDB sessions with >=40 cycles are censused at every quiescent point (descriptors <= 4, mappings <= live tables + 3) and after Close (nothing left, no library goroutine, re-Open and RemoveAll work); live sessions are closed while a compaction is held in flight at a hook point; table and RecordIO readers/writers (incl. failed Opens, abandoned scans, legacy-format tables, writers rewound before Close, stacked readers one member of which was closed before, and delete-only sessions on a fresh directory) must return to the baseline after Close.",
          "Linux /proc is the ground truth; goroutine attribution by stack frames", "§3 C19", "E5"),
 })
 CHECKS.update({
